@@ -217,10 +217,22 @@ def flags(repo):
         out["complexPartStrict"] = "none"
     else:
         raise ValueError(f"STEPcomplex::STEPread: part read arguments changed: {args}")
-    out["complexMergesParts"] = bool(re.search(r"AppendFromErrorArg\(\s*&\s*\(?\s*stepc->Error\(\)", cb)) and \
-        bool(re.search(r"_error\.AppendFromErrorArg\(\s*&\s*partErrors\s*\)", cb))
+    merged_at_end = bool(re.search(r"_error\.AppendFromErrorArg\(\s*&\s*partErrors\s*\)\s*;\s*return\s+_error\.severity\(\)\s*;", cb))
+    out["complexMergesParts"] = bool(re.search(r"AppendFromErrorArg\(\s*&\s*\(?\s*stepc->Error\(\)", cb)) and merged_at_end
     if ("stepc->Error()" in cb) != out["complexMergesParts"]:
         raise ValueError("STEPcomplex::STEPread: unknown use of the parts' error descriptors")
+    # (second shape) only what the ATTRIBUTES of a part other than `this` report is merged, derived attributes excepted
+    attr_shape = (r"stepc->SDAI_Application_instance::STEPread\([^;]*\)\s*;\s*if\(\s*stepc\s*!=\s*this\s*\)\s*\{\s*"
+                  r"int\s+n\s*=\s*stepc->attributes\.list_length\(\)\s*;\s*"
+                  r"for\(\s*int\s+i\s*=\s*0\s*;\s*i\s*<\s*n\s*;\s*i\+\+\s*\)\s*\{\s*"
+                  r"STEPattribute\s*&\s*a\s*=\s*stepc->attributes\[\s*i\s*\]\s*;\s*"
+                  r"if\(\s*!a\.IsDerived\(\)\s*&&\s*\(\s*a\.Error\(\)\.severity\(\)\s*<=\s*SEVERITY_USERMSG\s*\)\s*\)\s*\{\s*"
+                  r"partErrors\.AppendFromErrorArg\(\s*&\s*\(\s*a\.Error\(\)\s*\)\s*\)\s*;\s*\}\s*\}\s*\}")
+    out["complexMergesAttrErrors"] = bool(re.search(attr_shape, cb)) and merged_at_end
+    if ("partErrors" in cb) != (out["complexMergesParts"] or out["complexMergesAttrErrors"]):
+        raise ValueError("STEPcomplex::STEPread: unknown use of partErrors")
+    if out["complexMergesParts"] and out["complexMergesAttrErrors"]:
+        raise ValueError("STEPcomplex::STEPread: both merge shapes at once")
     rib = _strip(_body(sf, r"SDAI_Application_instance\s*\*\s*STEPfile::ReadInstance\(", "STEPfile::ReadInstance"))
     n_append = len(re.findall(r"AppendEntityErrorMsg\(\s*&\(\s*obj->Error\(\)\s*\)\s*\)", rib))
     if n_append not in (1, 2):
@@ -319,6 +331,15 @@ def flags(repo):
     out["dollarKeepsError"] = not re.search(r"_error\.severity\(\s*SEVERITY_NULL\s*\)", m.group(1))
     # lenient mode replaces only an explicit `$` (a parameter that is not there at all stays an error)
     out["fillerOnlyForDollar"] = m.group(2) is not None
+    # the filler's USERMSG: set outright (what CheckRemainingInput found behind the `$` is lost), or the found severity is
+    # saved before and merged back after
+    plain = r"_error\.severity\(\s*SEVERITY_USERMSG\s*\)\s*;"
+    n_user = len(re.findall(plain, sr))
+    keep = re.search(r"Severity\s+afterNull\s*=\s*_error\.severity\(\)\s*;\s*" + plain +
+                     r"(?:\s*_error\.AppendToDetailMsg\([^;]*\)\s*;)*\s*_error\.GreaterSeverity\(\s*afterNull\s*\)\s*;\s*\}\s*else\s*\{", sr)
+    if n_user != 1 or (("afterNull" in sr) != bool(keep)):
+        raise ValueError("STEPattribute::STEPread: severity of the lenient-mode filler changed")
+    out["fillerKeepsError"] = bool(keep)
     return out
 
 
@@ -332,11 +353,13 @@ namespace StepModel.Generated
 def rwCfg : StepModel.P21.RWCfg :=
   {{ stringNodeAppends := {_b(f['stringNodeAppends'])},
     aggrSkipsComments := {_b(f['aggrSkipsComments'])}, complexMergesParts := {_b(f['complexMergesParts'])},
+    complexMergesAttrErrors := {_b(f['complexMergesAttrErrors'])},
     complexPartStrict := {f['complexPartStrict']}, recoveryKeepsSemicolon := {_b(f['recoveryKeepsSemicolon'])},
     complexReportsError := {_b(f['complexReportsError'])},
     skipInstanceSkipsComments := {_b(f['skipInstanceSkipsComments'])},
     missingSemicolonReported := {_b(f['missingSemicolonReported'])},
     fillerOnlyForDollar := {_b(f['fillerOnlyForDollar'])},
+    fillerKeepsError := {_b(f['fillerKeepsError'])},
     errorResyncsFromStart := {_b(f['errorResyncsFromStart'])},
     numberElemReadsNumber := {_b(f['numberElemReadsNumber'])},
     aggrReportsMissingElement := {_b(f['aggrReportsMissingElement'])} }}
